@@ -168,7 +168,10 @@ def c07(tier, seed):
         t1 = session("c07-faults", FaultBudget=1, PubLens=[32], InitPads=[True, False], Variants=["tr"],
                      FixedEs=[True, False], TrafficMode="short")
         r1 = replay("C07", t1, seed, 1)
-        tl, rl = [t1], [r1]
+        t2 = session("c07-faults-psk", FaultBudget=1, PskMode="only", PubLens=[32], InitPads=[False], Variants=["tr"],
+                     FixedEs=[False], TrafficMode="short", PatSet=["N", "NN", "XX", "IK", "KK", "X1X1", "NX1", "K1K1"])
+        r2 = replay("C07", t2, seed, 1)
+        tl, rl = [t1, t2], [r1, r2]
     else:
         tl, rl = [], []
         for i, grp in enumerate([BASE[:12], BASE[12:24], BASE[24:]]):
@@ -180,6 +183,10 @@ def c07(tier, seed):
                     InitPads=[False], Variants=["tr"], FixedEs=[True], TrafficMode="short")
         rl.append(replay("C07", t, seed, 1, threads=14))
         tl.append(t)
+    tcfg = [("c07-tr", dict(MaxSend=2, Depth=3 if tier == "quick" else 5, BadBudget=1, SetBudget=0, SmallBufs=True, BigBudget=1)),
+            ("c07-ow", dict(OneWayT=True, MaxSend=1, Depth=3 if tier == "quick" else 4, BadBudget=1, SetBudget=0, SmallBufs=True))]
+    tl2, rl2 = tlegs("C07", seed, tcfg)
+    tl, rl = tl + tl2, rl + rl2
     res = merge("fault_enumeration", tl, rl, RULE_D1 +
                  "here: before every handshake step one failing call is injected (thorough: also pairs) - output buffer "
                  "one byte / one tag short of every field end of the message, oversized payload, out-of-turn write/read, "
@@ -203,7 +210,18 @@ def c06(tier, seed):
                      PubLens=[32], InitPads=[False], Variants=["tr"], TrafficMode="short")
     r1 = replay("C06", t1, seed, 1, threads=14)
     r2 = replay("C06", t2, seed, 1, threads=14)
-    return merge("model_checking", [t1, t2], [r1, r2], RULE_D1 +
+    if tier == "quick":
+        tcfg = [("c06-tr-rekey", dict(MaxSend=2, Depth=4, BadBudget=0, SetBudget=0, RekeyBudget=2, SmallBufs=False)),
+                ("c06-sl", dict(Stateful=False, MaxSend=1, Depth=2, BadBudget=0, SetBudget=0, SmallBufs=False))]
+    else:
+        tcfg = [("c06-tr-rekey", dict(MaxSend=3, Depth=6, BadBudget=1, SetBudget=0, RekeyBudget=3, SmallBufs=True)),
+                ("c06-sl", dict(Stateful=False, MaxSend=2, Depth=3, BadBudget=0, SetBudget=0, SmallBufs=False)),
+                ("c06-top", dict(NonceMode="top", MaxSend=3, Depth=5, BadBudget=1, SetBudget=0, RekeyBudget=1))]
+    tl2, rl2 = tlegs("C06", seed, tcfg)
+    return merge("model_checking", [t1, t2] + tl2, [r1, r2] + rl2, RULE_D1 +
+                 "transport: every interleaving of writes, deliveries and rekeys (stateful), and stateless writes under nonces "
+                 "that differ only above bit 32 - the recording cipher sees the 64-bit nonce, the byte comparison sees what the "
+                 "backend did with it; "
                  "here: sessions with failing calls, retries, PSKs set late at every possible time; TLC checks NoNonceReuse "
                  "and ReservedUnused on the model's encryption log (failed calls included); on the real code the recording "
                  "cipher logs every encrypt(key, nonce, ad, plaintext) of both endpoints and the same two predicates are "
@@ -220,13 +238,21 @@ def c14(tier, seed):
                      InitPads=[False], Variants=["tr"], TrafficMode="short")
         r1 = replay("C14", t1, seed, 1)
         r2 = replay("C14", t2, seed, 1)
+        tcfg = [("c14-tr", dict(MaxSend=1, Depth=2, BadBudget=1, SetBudget=0, SmallBufs=True, BigBudget=1)),
+                ("c14-sl", dict(Stateful=False, MaxSend=1, Depth=2, BadBudget=1, SetBudget=0, SmallBufs=True, BigBudget=1))]
     else:
         t1 = session("c14-honest", Profiles=["max", "zero", "tag", "mid"], BufModes=["big", "exact"], PskMode="all")
         r1 = replay("C14", t1, seed, 2, threads=14)
         t2 = session("c14-faults", FaultBudget=1, FaultKinds=kinds, PskMode="single", Profiles=["small", "max"],
                      InitPads=[False], Variants=["tr"], TrafficMode="short")
         r2 = replay("C14", t2, seed, 2, threads=14)
-    return merge("model_checking", [t1, t2], [r1, r2], RULE_D1 +
+        tcfg = [("c14-tr", dict(MaxSend=2, Depth=3, BadBudget=1, SetBudget=0, SmallBufs=True, BigBudget=1)),
+                ("c14-sl", dict(Stateful=False, MaxSend=1, Depth=3, BadBudget=1, SetBudget=0, SmallBufs=True, BigBudget=1)),
+                ("c14-ow", dict(OneWayT=True, MaxSend=1, Depth=3, BadBudget=1, SetBudget=0, SmallBufs=True, BigBudget=1))]
+    tl2, rl2 = tlegs("C14", seed, tcfg)
+    return merge("model_checking", [t1, t2] + tl2, [r1, r2] + rl2, RULE_D1 +
+                 "transport: buffers exactly / one byte short of payload+16, payloads of 65519 and 65520 bytes, reads with exact "
+                 "and one-byte-short buffers, messages of 65536 bytes; "
                  "here: message lengths are computed by the model from the fields actually written (Framing invariant); "
                  "payloads 0 and maximum-fit, buffers one byte and one tag short of every field end, messages one byte "
                  "over 65535, truncations at and inside every field", ASSUME_SYMBOLIC)
@@ -256,7 +282,10 @@ def c03(tier, seed):
     if tier == "quick":
         t = session("c03-tamper", TamperBudget=1, PubLens=[32], InitPads=[False], Variants=["tr"], TrafficMode="short")
         r = replay("C03", t, seed, 1)
-        tl, rl = [t], [r]
+        t2 = session("c03-tamper-p256", TamperBudget=1, PubLens=[65], InitPads=[False], Variants=["tr"], TrafficMode="short",
+                     PskMode="single", PatSet=["NN", "XX", "IK", "KK", "N", "X", "NX1", "I1K1"])
+        r2 = replay("C03", t2, seed, 1)
+        tl, rl = [t, t2], [r, r2]
     else:
         tl, rl = [], []
         for i, grp in enumerate([BASE[:12], BASE[12:24], BASE[24:]]):
